@@ -158,6 +158,9 @@ func plExplore(t *testing.T, res *ev.Result, prop string, bound int, scs []*plSc
 	e.MaxSteps = 600
 	e.Deadline = time.Now().Add(ev.Budget(budget))
 	e.OnExec = func(sc *sched.Scenario, choices []int) { fmt.Printf("EXEC %s %v\n", sc.Name, choices) }
+	if os.Getenv("VERIF_FREE") != "" {
+		e.Free, e.FreeRuns = true, 3
+	}
 	var wrapped []*sched.Scenario
 	for _, sc := range scs {
 		wrapped = append(wrapped, plWrap(sc, chk))
